@@ -12,6 +12,7 @@ the higher level classes to inherit from.
 import abc
 import inspect
 import itertools
+import operator
 from enum import Enum, unique
 from typing import List, Optional, Set, TypeVar, MutableSet, Generic, Iterable, Dict, Iterator, Union, overload, \
     MutableSequence, Type, Any, TYPE_CHECKING, Tuple, Callable, MutableMapping
@@ -2247,6 +2248,8 @@ class OrderedNamespaceSet(NamespaceSet[_NSO], MutableSequence[_NSO], Generic[_NS
         self._order.clear()
 
     def insert(self, index: int, object_: _NSO) -> None:
+        # list.insert() refuses an index that is not an integer - but only after the object has been added to the backend
+        index = operator.index(index)
         super().add(object_)
         self._order.insert(index, object_)
 
